@@ -458,6 +458,8 @@ STATIC_CULPRITS = [
     ("int-overflow", "fn main() {{\n    let _a = {C};\n}}\n", "99999999999999999999", "syn", "Cannot use"),
     ("break-outside", "fn main() {{\n    {C}\n}}\n", "break;", 3, "Illegal use of 'break'"),
     ("call-args", "fn f(a: int) {{ println(a); }}\nfn main() {{\n    f{C};\n}}\n", "(1, 2)", 3, "Function requires 1 argument"),
+    ("trigger-undefined-in-block", "fn main() {{\n    let fa = match 1 {{ 3 => 5, _ => {C} }};\n}}\n", "if true { } else if false { trigger y on h(1); }", 3, "Mismatched types"),
+    ("builtin-fn-param", "fn main() {{\n    let f: fn(seconds: int) -> null = {C};\n    f(1);\n}}\n", "time.sleep", 3, "Mismatched types"),
 ]
 
 
@@ -493,7 +495,7 @@ LIMIT_S = 30          # watchdog per input line (the slowest legitimate input ta
 
 
 class Item:
-    __slots__ = ("tag", "kind", "span", "file", "pos", "ord", "disp", "edisp", "ddisp", "msg")
+    __slots__ = ("tag", "kind", "span", "file", "pos", "ord", "disp", "edisp", "ddisp", "msg", "syntax_clean")
 
     def __init__(self, text):
         f = dict(p.split("=", 1) for p in text.split(" ")[1:] if "=" in p)
@@ -515,6 +517,12 @@ class Result:
         self.dead = self.cls in ("CRASH", "HANG") or line.startswith(("CRASH", "HANG", "PANIC x", "BAD-INPUT"))
         self.fields = dict(p.split("=", 1) for p in head[1:] if "=" in p)
         self.items = [] if self.dead else [Item(p) for p in parts[1:]]
+        # no syntax error at all: the analyzer saw the program the text denotes (no error-recovery nodes)
+        clean = all(self.fields.get(k, "0") == "0" for k in ("psoft", "phard", "syn"))
+        n_err = sum(1 for it in self.items if it.tag == "AD" and it.kind == 3)
+        for it in self.items:
+            # … and this is the program's only error: not a follow-up of another error's recovery value
+            it.syntax_clean = clean and n_err == 1
         self.mods = [m for m in self.fields.get("mods", "").split(",") if m]
 
     @property
